@@ -1,7 +1,7 @@
 // C10 harness — tenant resolution.
 //
-// The REAL UpstreamClusterController (built by an overlay shim around a caller-owned cache.Indexer and the real
-// clusters.NewManager()) is driven through its real queue handler syncUpstreamCluster on generated histories of
+// The REAL UpstreamClusterController (built by the PUBLIC constructor around an informer that is never started; its
+// own clusters.NewManager() goes behind a recording wrapper; the only shim is the unexported handler) is driven through its real queue handler syncUpstreamCluster on generated histories of
 // lister writes and handler invocations. After EVERY step the harness observes
 //   - the manager's raw key set and, per key, the *ClusterInfo it resolves to (pointer identity -> index),
 //   - every ClusterInfo ever seen: Cluster, LoadServerNames, LoadTLSConfig (certificate serial / CA subject),
@@ -31,6 +31,7 @@ import (
 	"os"
 	"sort"
 	"strings"
+	"sync"
 	"time"
 
 	metav1 "k8s.io/apimachinery/pkg/apis/meta/v1"
@@ -45,7 +46,11 @@ import (
 	proxylisters "github.com/kubewharf/kubegateway/pkg/client/listers/proxy/v1alpha1"
 	"github.com/kubewharf/kubegateway/pkg/clusters"
 	"github.com/kubewharf/kubegateway/pkg/clusters/features"
+	gatewayinformers "github.com/kubewharf/kubegateway/pkg/client/informers"
+	gatewayfake "github.com/kubewharf/kubegateway/pkg/client/kubernetes/fake"
 	"github.com/kubewharf/kubegateway/pkg/gateway/controllers"
+	"github.com/kubewharf/kubegateway/pkg/gateway/controlplane/admission/initializer"
+	proxyoptions "github.com/kubewharf/kubegateway/pkg/gateway/proxy/options"
 	"github.com/kubewharf/kubegateway/pkg/gateway/endpoints/filters"
 	"github.com/kubewharf/kubegateway/pkg/gateway/endpoints/request"
 	gatewaynet "github.com/kubewharf/kubegateway/pkg/gateway/net"
@@ -198,36 +203,105 @@ func mkObj(name string, sp *Spec, rv int) *proxyv1alpha1.UpstreamCluster {
 
 // recordingManager is the clusters.Manager handed to the controller: the real manager, with a hook after every
 // mutating call. Reads (Get) and everything else go straight to the real manager.
+//
+// The manager's table itself is never touched (no shim into its representation — sync.Map, mutex + map, …): the
+// wrapper sees every key the controller ever writes, and `keys` asks the real manager's own Get which of them
+// resolve now. (A key the manager stored without lower-casing it would not resolve and is judged as missing.)
 type recordingManager struct {
 	clusters.Manager
 	before func() // may be nil
 	after  func()
+	mu     sync.Mutex
+	cands  map[string]bool
 }
 
-func (r *recordingManager) pre() {
+func (r *recordingManager) pre(k string) {
+	r.mu.Lock()
+	if r.cands == nil {
+		r.cands = map[string]bool{}
+	}
+	r.cands[strings.ToLower(k)] = true
+	r.mu.Unlock()
 	if r.before != nil {
 		r.before()
 	}
 }
 func (r *recordingManager) AddWithKey(k string, c *clusters.ClusterInfo) {
-	r.pre()
+	r.pre(k)
 	r.Manager.AddWithKey(k, c)
 	r.after()
 }
 func (r *recordingManager) Add(c *clusters.ClusterInfo) {
-	r.pre()
+	r.pre(c.Cluster)
 	r.Manager.Add(c)
 	r.after()
 }
 func (r *recordingManager) Delete(k string) {
-	r.pre()
+	r.pre(k)
 	r.Manager.Delete(k)
 	r.after()
 }
 func (r *recordingManager) DeleteWithStop(k string) {
-	r.pre()
+	r.pre(k)
 	r.Manager.DeleteWithStop(k)
 	r.after()
+}
+
+type keyEntry struct {
+	key string
+	ci  *clusters.ClusterInfo
+}
+
+// keys lists, sorted, the (lower-cased) keys that resolve at this moment and what they resolve to.
+func (r *recordingManager) keys() []keyEntry {
+	r.mu.Lock()
+	cands := make([]string, 0, len(r.cands))
+	for k := range r.cands {
+		cands = append(cands, k)
+	}
+	r.mu.Unlock()
+	sort.Strings(cands)
+	var out []keyEntry
+	for _, k := range cands {
+		if ci, ok := r.Manager.Get(k); ok {
+			out = append(out, keyEntry{k, ci})
+		}
+	}
+	return out
+}
+
+// stubInformer is the UpstreamClusterInformer handed to the PUBLIC NewUpstreamClusterController in the sequential
+// streams: a shared informer that is never started (no watch connection, no events); the harness writes its
+// indexer directly and calls the handler itself.
+type stubInformer struct{ inf cache.SharedIndexInformer }
+
+func newStubInformer() *stubInformer {
+	return &stubInformer{inf: cache.NewSharedIndexInformer(&cache.ListWatch{}, &proxyv1alpha1.UpstreamCluster{}, 0, cache.Indexers{})}
+}
+func (s *stubInformer) Informer() cache.SharedIndexInformer { return s.inf }
+func (s *stubInformer) Lister() proxylisters.UpstreamClusterLister {
+	return proxylisters.NewUpstreamClusterLister(s.inf.GetIndexer())
+}
+
+// The REAL admission plug-in, initialised the public way (SetGatewayResourceInformerFactory) with an informer
+// factory on an empty fake clientset; the harness mirrors every lister write into that informer's indexer.
+var (
+	thePlugin     admission.ValidationInterface
+	pluginIndexer cache.Indexer
+)
+
+func initPlugin() {
+	factory := gatewayinformers.NewSharedInformerFactory(gatewayfake.NewSimpleClientset(), 0)
+	p := upstreamclusteradmission.NewUpstreamClusterPlugin()
+	p.(initializer.WantsGatewayResourceInformerFactory).SetGatewayResourceInformerFactory(factory)
+	inf := factory.Proxy().V1alpha1().UpstreamClusters().Informer()
+	stop := make(chan struct{}) // lives as long as the process
+	factory.Start(stop)
+	if !cache.WaitForCacheSync(stop, inf.HasSynced) {
+		fmt.Fprintln(os.Stderr, "admission plug-in informer did not sync")
+		os.Exit(2)
+	}
+	thePlugin, pluginIndexer = p.(admission.ValidationInterface), inf.GetIndexer()
 }
 
 type fakeConn struct{ net.Conn }
@@ -253,12 +327,16 @@ type execResult struct {
 
 // execute runs the history on the real controller.
 func execute(cs Case) (res execResult) {
-	indexer := cache.NewIndexer(cache.MetaNamespaceKeyFunc, cache.Indexers{})
-	real := clusters.NewManager()
+	stub := newStubInformer()
+	indexer := stub.inf.GetIndexer()
+	pluginIndexer.Replace(nil, "") //nolint
+	// the public constructor; the controller's own manager goes behind the recording wrapper (exported field)
+	ctl := controllers.NewUpstreamClusterController(stub, proxyoptions.NewRateLimiterOptions())
+	real := ctl.Manager
 	rec := &recordingManager{Manager: real, after: func() {}}
-	ctl := controllers.VerifC10NewController(indexer, rec)
-	defer ctl.VerifC10Stop()
-	plugin := upstreamclusteradmission.VerifC10NewPlugin(proxylisters.NewUpstreamClusterLister(indexer))
+	ctl.Manager = rec
+	defer ctl.DeleteAll()
+	plugin := thePlugin
 	objIfaces := admission.NewObjectInterfacesFromScheme(admScheme)
 
 	ptrIdx := map[*clusters.ClusterInfo]int{}
@@ -320,12 +398,9 @@ func execute(cs Case) (res execResult) {
 		o.Admit = true
 		o.Mid = [][][]interface{}{}
 		rec.after = func() {
-			keys := clusters.VerifC10Keys(real)
-			sort.Strings(keys)
 			snap := [][]interface{}{}
-			for _, k := range keys {
-				ci, _ := clusters.VerifC10Raw(real, k)
-				snap = append(snap, []interface{}{rig.Hex(k), idx(ci)})
+			for _, e := range rec.keys() {
+				snap = append(snap, []interface{}{rig.Hex(e.key), idx(e.ci)})
 			}
 			o.Mid = append(o.Mid, snap)
 		}
@@ -344,9 +419,11 @@ func execute(cs Case) (res execResult) {
 					proxyv1alpha1.SchemeGroupVersion.WithResource("upstreamclusters"), "", op, opts, false, nil)
 				o.Admit = plugin.Validate(context.Background(), attrs, objIfaces) == nil
 				if exists {
-					indexer.Update(obj) //nolint
+					indexer.Update(obj)       //nolint
+					pluginIndexer.Update(obj) //nolint
 				} else {
-					indexer.Add(obj) //nolint
+					indexer.Add(obj)       //nolint
+					pluginIndexer.Add(obj) //nolint
 				}
 				lastObj[name] = obj
 				written[name] = append(written[name], obj)
@@ -356,7 +433,8 @@ func execute(cs Case) (res execResult) {
 				pending[name] = true
 			case "unset":
 				if obj, exists, _ := indexer.GetByKey(name); exists {
-					indexer.Delete(obj) //nolint
+					indexer.Delete(obj)       //nolint
+					pluginIndexer.Delete(obj) //nolint
 				}
 				if len(pending) > 0 || strings.ToLower(name) != name {
 					settledOK = false
@@ -397,12 +475,9 @@ func execute(cs Case) (res execResult) {
 
 		// ---- observe
 		rec.after = func() {}
-		keys := clusters.VerifC10Keys(real)
-		sort.Strings(keys)
 		o.State.Keys = [][]interface{}{}
-		for _, k := range keys {
-			ci, _ := clusters.VerifC10Raw(real, k)
-			o.State.Keys = append(o.State.Keys, []interface{}{rig.Hex(k), idx(ci)})
+		for _, e := range rec.keys() {
+			o.State.Keys = append(o.State.Keys, []interface{}{rig.Hex(e.key), idx(e.ci)})
 		}
 		o.State.Infos = []Info{}
 		o.State.Stopped = []int{}
@@ -416,7 +491,11 @@ func execute(cs Case) (res execResult) {
 			vca := -1
 			if ok {
 				vca = poolID(vo.Roots)
-				if len(vo.KeyUsages) != 1 || vo.KeyUsages[0] != x509.ExtKeyUsageClientAuth {
+				hasClientAuth := false
+				for _, u := range vo.KeyUsages {
+					hasClientAuth = hasClientAuth || u == x509.ExtKeyUsageClientAuth
+				}
+				if !hasClientAuth {
 					fail(si, "c10.verify-options", fmt.Sprintf("cluster %q: verify options without the client-auth key usage", ci.Cluster))
 				}
 			}
@@ -582,6 +661,11 @@ func runCase(c *rig.Ctx, cs Case) (v verdict) {
 	if j.Fail != "" {
 		st := cs.Steps[j.Step]
 		v.Kind, v.Class = "judge", "c10."+j.Fail
+		if j.Fail == "refused-changed" || j.Fail == "lister-write-changed" {
+			// "a refused event changes nothing" is what the MODEL does (c10_refused_unchanged); the property itself is
+			// judged by inv / frame / mid-event, which passed: extra clean-up on a refusal is a tie difference
+			v.Kind = "diff"
+		}
 		v.What = fmt.Sprintf("%s fails after step %d (%s %q): %s", j.Fail, j.Step, st.K, rig.UnHex(st.Name), explain(j.Fail))
 		var before interface{}
 		if j.Step > 0 {
@@ -908,6 +992,7 @@ func main() {
 	klog.SetOutput(io.Discard)
 	proxyv1alpha1.AddToScheme(admScheme) //nolint
 	initMaterial()
+	initPlugin()
 
 	rig.Main("C10", func(c *rig.Ctx) {
 		c.SetRule("[gateway level: race = burst of colliding writes through the real informer/queue/Run() judged at quiescence with invB; auth = 10-17 TLS exchanges through the shipped options->ApplyTo->WithAuthentication / SecureServingInfo.Serve wiring, with and without --client-ca-file] a history of 12-40 steps (lister write `set`/`unset`, handler invocation `sync`) over 3-5 clusters and a 6-name universe: " +
